@@ -5,8 +5,11 @@
 EXTENDS MC_KeyringImpl
 VARIABLE hist
 GInit == Init /\ hist = <<>>
-GNext == \E p \in Prim : \/ Load(p) /\ hist' = Append(hist, <<"load", p>>)
-                         \/ Unload(p) /\ hist' = Append(hist, <<"unload", p>>)
+GPrim(p) == \/ (Load(p) \/ Reload(p)) /\ hist' = Append(hist, <<"load", p>>)
+            \/ Unload(p) /\ hist' = Append(hist, <<"unload", p>>)
+GSub(h) == \/ LoadSub(h) /\ hist' = Append(hist, <<"load", h>>)
+           \/ UnloadSub(h) /\ hist' = Append(hist, <<"unload", h>>)
+GNext == (\E p \in Prim : GPrim(p)) \/ (\E h \in SubObjs : GSub(h))
 GSpec == GInit /\ [][GNext]_<<vars, hist>>
 ImplView == vars
 Emit == Len(hist) >= 1 => PrintT(<<"BEH", hist>>)
